@@ -24,6 +24,13 @@ package lowleveljpeg
 //@   expand
 //@   ensures forall(i, 0, 64, zigzag[i] < 64)
 
+// "bitCount[i] is the smallest n such that i < (1 << n)" (its doc comment): the JPEG
+// magnitude category of a coefficient is read from this table.
+//@ lemma bitcountexact
+//@   prop C18
+//@   expand
+//@   ensures bitCount[0] == 0 && forall(i, 1, 256, 1 <= bitCount[i] && bitCount[i] <= 8 && i < (1 << bitCount[i]) && (1 << bitCount[i]) <= 2 * i)
+
 // zigzag visits every coefficient exactly once (a table with a repeated entry would
 // drop a coefficient from every block and from the quantisation tables in the header).
 //@ lemma zigzagperm
